@@ -252,4 +252,12 @@ def main():
         R.notes.append("bridge part (props/c05_bridge.py) not present in this tree")
     if c05_bridge is not None:
         c05_bridge.run(R)
+    # construction (component built through NewConsensusController: index -> key table, n, quorum), built separately: props/c05_ctor.py
+    try:
+        import c05_ctor
+    except ImportError:
+        c05_ctor = None
+        R.notes.append("construction part (props/c05_ctor.py) not present in this tree")
+    if c05_ctor is not None:
+        c05_ctor.run(R)
     R.finish()
